@@ -292,6 +292,18 @@ class Ctx:
         else:
             self.goals.append((cid, 'cond', cond, note))
 
+    def opaque(self, name, value):
+        """modular abstraction of a callee result: a fresh unconstrained symbol stands for `value`
+        (what the callee returns is proved by the callee's own contract).  Concrete modes: the value."""
+        value = self.val(value)
+        if self.mode == 'num':
+            return value
+        s = sp.Symbol(name, real=True)
+        if self.mode == 'concolic':
+            _atom_values(self.path, self.env)
+            self.env[s] = num_eval(S.lift(value).e, self.env)
+        return Sym(s)
+
     def abstract(self, name, value):
         """name a sub-term: returns a fresh symbol with the defining equation recorded (Groebner
         sees it) and the sign knowledge of the value transferred.  Concrete modes: the value."""
@@ -607,13 +619,21 @@ def discharge(path, kind, payload, timeout_ms):
             how = []
             allok = True
             for part in parts:
-                ok, h = P.groebner_prove(eqs, part, nonzero)
+                try:
+                    with P.time_limit(20):
+                        red = P.atom_reduce(path, part)
+                except Exception:
+                    red = None
+                if red is not None and red == 0:
+                    how.append('atom-rewriting')
+                    continue
+                ok, h = P.groebner_prove(eqs, red if red is not None else part, nonzero)
                 how.append(h)
                 if not ok:
                     allok = False
                     break
             if allok:
-                return 'proved', 'groebner', ';'.join(how), time.time() - t0
+                return 'proved', ('rewriting' if all(h == 'atom-rewriting' for h in how) else 'groebner'), ';'.join(how), time.time() - t0
             goal = S.s_and(*[SymBool.rel(pt, '==') for pt in parts])
             if goal is True:
                 return 'proved', 'normal-form', '', time.time() - t0
